@@ -8,39 +8,46 @@ From KP Require Import Bytes Outcome LE Version Kdbx4 Kdbx4Proofs Kdbx4Integrity
 Local Open Scope N_scope.
 
 (* an accepted block stream IS a sequence of correctly MACed, consecutively indexed, non-empty blocks,
-   optionally followed by a correctly MACed empty block after which everything is ignored *)
+   followed by a correctly MACed empty block (always present) after which everything is ignored *)
 Theorem c05_read_blocks_sound : forall (sha512 : bytes -> bytes) (hmac256 : bytes -> bytes -> bytes)
     fuel idx stream key out res0,
   read_blocks sha512 hmac256 fuel idx stream key out = Ok res0 ->
-  exists blocks tail,
+  exists blocks rest,
     res0 = out ++ concat (map snd blocks) /\
     Forall (fun p : bytes * bytes => sized p /\ snd p <> []) blocks /\
-    stream = frames sha512 hmac256 idx key blocks ++ tail /\
-    (tail = [] \/ exists rest, tail = frame sha512 hmac256 (idx + N.of_nat (length blocks)) key (le_enc 4 0) [] ++ rest).
+    stream = frames sha512 hmac256 idx key blocks
+             ++ frame sha512 hmac256 (idx + N.of_nat (length blocks)) key (le_enc 4 0) [] ++ rest.
 Proof. exact read_blocks_sound. Qed.
 
-(* every way an accepted stream can relate to the honest one for ciphertext ct: a forgery, the empty
-   stream (empty payload), the honest stream without its terminator, or the honest stream plus
-   ignored trailing bytes *)
+(* conversely: correctly MACed, consecutively indexed, non-empty blocks NOT followed by the closing empty
+   block are never accepted - a stream cut at a block boundary (the empty stream included: blocks = [])
+   is rejected *)
+Theorem c05_cut_stream_is_rejected : forall (sha512 : bytes -> bytes) (hmac256 : bytes -> bytes -> bytes),
+  (forall k m, length (hmac256 k m) = 32%nat) ->
+  forall blocks fuel idx key out res0,
+  Forall (fun p : bytes * bytes => sized p /\ snd p <> []) blocks ->
+  read_blocks sha512 hmac256 fuel idx (frames sha512 hmac256 idx key blocks) key out <> Ok res0.
+Proof. exact read_blocks_needs_closing_block. Qed.
+
+(* every way an accepted stream can relate to the honest one for ciphertext ct: a forgery, or the
+   honest stream plus ignored trailing bytes *)
 Theorem c05_accepted_stream_classification : forall (sha512 : bytes -> bytes) (hmac256 : bytes -> bytes -> bytes)
     fuel stream' key ct enc,
   read_blocks sha512 hmac256 fuel 0 stream' key [] = Ok enc ->
   Forgery sha512 hmac256 key (honest_triples ct) stream' \/
-  (stream' = [] /\ enc = []) \/
-  (ct <> [] /\ enc = ct /\ stream' = frame sha512 hmac256 0 key (le_enc 4 (N.of_nat (length ct))) ct) \/
   (enc = ct /\ exists rest, stream' = write_blocks sha512 hmac256 ct key ++ rest).
 Proof. exact accepted_stream_classification. Qed.
 
-(* a different payload out of the block stream means the stream is empty or contains a forgery *)
+(* a different payload out of the block stream means the stream contains a forgery *)
 Theorem c05_altered_stream_is_forgery : forall (sha512 : bytes -> bytes) (hmac256 : bytes -> bytes -> bytes)
     fuel stream' key ct enc,
   read_blocks sha512 hmac256 fuel 0 stream' key [] = Ok enc ->
   enc <> ct ->
-  (stream' = [] /\ enc = []) \/ Forgery sha512 hmac256 key (honest_triples ct) stream'.
+  Forgery sha512 hmac256 key (honest_triples ct) stream'.
 Proof. exact altered_stream_is_forgery. Qed.
 
 (* the whole file: f honestly written, f' with the same header bytes accepted under the same
-   credentials with a DIFFERENT result => the block stream of f' is empty or contains a forgery *)
+   credentials with a DIFFERENT result => the block stream of f' contains a forgery *)
 Theorem c05_altered_file_is_forgery :
   forall (sha256 sha512 : bytes -> bytes) (hmac256 : bytes -> bytes -> bytes)
          (kdf : kdfcfg -> bytes -> bytes -> res bytes)
@@ -65,8 +72,7 @@ Theorem c05_altered_file_is_forgery :
     outer_enc (c_outer cfg) (master_key_of sha256 (d_master_seed d) t) (d_iv d) p = Ok ct /\
     (let hk := hmac_key_of sha512 (d_master_seed d) t in
      f = header ++ sha256 header ++ header_mac sha512 hmac256 hk header ++ write_blocks sha512 hmac256 ct hk /\
-     (drop (length header + 64) f' = [] \/
-      Forgery sha512 hmac256 hk (honest_triples ct) (drop (length header + 64) f'))).
+     Forgery sha512 hmac256 hk (honest_triples ct) (drop (length header + 64) f')).
 Proof. exact altered_file_is_forgery. Qed.
 
 (* any change to any header byte (the attacker recomputing the unkeyed SHA-256) that is still accepted
@@ -86,8 +92,8 @@ Proof. exact altered_header_is_forgery. Qed.
 
 (* ---------------- END TO END (format/SaveOpen.v) ----------------
    A file f' that begins with the honest header of a saved database and that open_model accepts under
-   the same credentials as a DIFFERENT database has an empty block stream or contains a forgery
-   against the block tags the writer produced. *)
+   the same credentials as a DIFFERENT database contains a forgery against the block tags the writer
+   produced. *)
 From KP Require Import SaveOpen XmlTypes XmlSpec Kdbx4Proofs.
 Theorem c05_altered_saved_file_is_forgery :
   forall (sha256 sha512 : bytes -> bytes) (hmac256 : bytes -> bytes -> bytes)
@@ -122,6 +128,5 @@ Theorem c05_altered_saved_file_is_forgery :
     outer_enc (c_outer cfg) (master_key_of sha256 (d_master_seed d) t) (d_iv d) p = Ok ct /\
     (let hk := hmac_key_of sha512 (d_master_seed d) t in
      f = header ++ sha256 header ++ header_mac sha512 hmac256 hk header ++ write_blocks sha512 hmac256 ct hk /\
-     (drop (length header + 64) f' = [] \/
-      Forgery sha512 hmac256 hk (honest_triples ct) (drop (length header + 64) f'))).
+     Forgery sha512 hmac256 hk (honest_triples ct) (drop (length header + 64) f')).
 Proof. exact save_open_altered_file. Qed.
